@@ -211,6 +211,67 @@ def sec_combine(rec, patches=None):
                 rec.query(f"combine/UnionAxes([y,x,y])=union{idx}", h, zb(un3[idx]) == z3.Or(zb(my[idx]), zb(sx[idx])), key="C08/union", twin=False, nonlinear=True, replay=replay_history)
 
 
+def sec_union_iterable(rec, patches=None):
+    """UnionAxes accepts any iterable of models: built from a generator (or a list that is changed afterwards) it gives the union mask on every call, not only on the first"""
+    L = _load(patches)
+    T, Bs = L["acryo.tilt.core"], L["acryo.tilt._base"]
+    rec.encodes("acryo/tilt/_base.py:UnionAxes.__init__", "acryo/tilt/_base.py:UnionAxes.create_mask (called repeatedly)")
+    t0, h0 = make_tilt("umin")
+    t1, h1 = make_tilt("umax")
+    hyps = h0 + h1 + ordered(t0, t1) + [t0.deg.e < t1.deg.e]
+    q = list(rotation.R30[9])
+    shape = (1, 1, 2)
+
+    def run():
+        rot = rotation.SymRotation(q)
+        members = [T.single_axis((t0, t1), "y"), T.single_axis((t0, t1), "x")]
+        u_gen = Bs.UnionAxes(m for m in members)
+        first = u_gen.create_mask(rot, shape)
+        second = u_gen.create_mask(rot, shape)
+        lst = list(members)
+        u_lst = Bs.UnionAxes(lst)
+        lst.clear()
+        third = u_lst.create_mask(rot, shape)
+        return first, second, third, members[0].create_mask(rot, shape), members[1].create_mask(rot, shape)
+
+    for pi, p in enumerate(explore(run, assumptions=hyps, max_paths=200)):
+        if not p.ok:
+            rec.fact(f"union-iterable/path{pi}/runs", False, key="C08/union/raises", detail={"exc": repr(p.exc)[:200]}, reproduced=replay_union_iterable({})[0])
+            continue
+        first, second, third, my, mx = (_obj(v) for v in p.result)
+        h = hyps + [p.condition()]
+        for name, m in (("first call (generator)", first), ("second call (generator)", second), ("list cleared by the caller afterwards", third)):
+            oks = m.shape == tuple(shape)
+            rec.fact(f"union-iterable/path{pi}/{name}/shape", oks, key="C08/union", detail={"shape": list(m.shape)}, reproduced=True if oks else replay_union_iterable({})[0])
+            if oks:
+                for idx in np.ndindex(shape):
+                    rec.query(f"union-iterable/path{pi}/{name}/bin{idx}=union", h, zb(m[idx]) == z3.Or(zb(my[idx]), zb(mx[idx])), key="C08/union-iterable", twin=False, nonlinear=True, replay=replay_union_iterable)
+
+
+def replay_union_iterable(cex):
+    from scipy.spatial.transform import Rotation
+    from acryo.tilt import single_axis
+    from acryo.tilt._base import UnionAxes
+
+    rot = Rotation.from_rotvec([0.3, -0.5, 0.2])
+    shape = (8, 9, 10)
+    members = [single_axis((-60, 60), "y"), single_axis((-50, 40), "x")]
+    want = np.maximum(np.asarray(members[0].create_mask(rot, shape)), np.asarray(members[1].create_mask(rot, shape)))
+    bad = {}
+    u = UnionAxes(m for m in members)
+    for k in range(3):
+        got = np.asarray(u.create_mask(rot, shape))
+        if got.shape != want.shape or (got != want).any():
+            bad[f"generator, call {k + 1}"] = int((got != want).sum()) if got.shape == want.shape else "shape"
+    lst = list(members)
+    u2 = UnionAxes(lst)
+    lst.clear()
+    got = np.asarray(u2.create_mask(rot, shape))
+    if got.shape != want.shape or (got != want).any():
+        bad["list cleared afterwards"] = int((got != want).sum()) if got.shape == want.shape else "shape"
+    return len(bad) > 0, {"wrong_bins": bad}
+
+
 def replay_history(cex):
     """installed library, caches active: masks requested in different orders for the same tilt range must equal the masks of a fresh process"""
     from scipy.spatial.transform import Rotation
@@ -367,7 +428,7 @@ def _shapes(tier):
 
 
 def sections(tier):
-    S = [("combine", "checks.c08", "sec_combine", {}), ("dispatch", "checks.c08", "sec_dispatch", {}), ("cache-history", "checks.c08", "sec_history", {})]
+    S = [("union-iterable", "checks.c08", "sec_union_iterable", {}), ("combine", "checks.c08", "sec_combine", {}), ("dispatch", "checks.c08", "sec_dispatch", {}), ("cache-history", "checks.c08", "sec_history", {})]
     shapes = _shapes(tier)
     quats = rotation.R6 if quick(tier) else rotation.R30
     for si, shp in enumerate(shapes):
@@ -421,6 +482,12 @@ def run(tier, procs=None, only=None):
 
 def replay(data):
     det = data.get("replay_detail") or {}
+    key = data.get("key", "")
+    if "union-iterable" in key or "history" in key or key == "C08/union":
+        ok, detail = (replay_union_iterable if "iterable" in key else replay_history)(data.get("cex") or {})
+        print("replay:", detail)
+        print("REPRODUCED" if ok else "not reproduced")
+        return 1 if ok else 0
     ok, detail = replay_mask(tuple(det.get("shape", (3, 3, 3))), det.get("quat", [0, 0, 0, 1]), det.get("axis", "y"), det.get("entry", "model"))(data.get("cex") or {})
     print("replay:", detail)
     print("REPRODUCED" if ok else "not reproduced")
